@@ -39,6 +39,13 @@ type Run struct {
 	// Replayer re-runs one recorded case (the Case of a V, as raw JSON) without
 	// the explorer and returns the violations it shows (nil if none).
 	Replayer func(raw json.RawMessage) []V
+	// ConcurrentReplay: the Replayer is safe to call from several goroutines and
+	// the code under test is documented as free of shared state (pure functions);
+	// a violation that does not reproduce alone is then replayed concurrently.
+	ConcurrentReplay bool
+	// Noise exercises the code under test with varied inputs; it runs in other
+	// goroutines while a case is replayed concurrently.
+	Noise func(i int)
 
 	start    time.Time
 	cap      time.Duration
@@ -321,6 +328,16 @@ func (r *Run) Finish() {
 						ok = true
 					}
 				}
+				if !ok && r.ConcurrentReplay {
+					// The case fails only while other callers are active (the main pass runs
+					// many workers): shared state inside the code under test. Replay it from
+					// several goroutines at once; the oracle is a function of one call's
+					// result, so a failure seen there is genuine.
+					ok = r.replayConcurrently(raw, v.Key)
+					if ok && !strings.Contains(v.What, "[only while other goroutines") {
+						v.What += " [only while other goroutines call the same function: state shared between calls]"
+					}
+				}
 				if !ok {
 					Harness("flaky: violation %q did not reproduce on replay %d/5: %s", v.Key, i+1, v.What)
 				}
@@ -428,3 +445,32 @@ func Harness(format string, args ...any) {
 func Q(b []byte) string { return strconv.Quote(string(b)) }
 
 func sinceSeconds(r *Run) float64 { return time.Since(r.start).Seconds() }
+
+
+func (r *Run) replayConcurrently(raw json.RawMessage, key string) bool {
+	var found, stop int32
+	var wg sync.WaitGroup
+	deadline := time.Now().Add(2 * time.Second)
+	for g := 0; g < 8; g++ {
+		wg.Add(1)
+		go func(g int) {
+			defer wg.Done()
+			for i := 0; time.Now().Before(deadline) && atomic.LoadInt32(&found) == 0 && atomic.LoadInt32(&stop) == 0; i++ {
+				if g >= 2 && r.Noise != nil {
+					func() {
+						defer func() { recover() }() // the noise may itself trip over the shared state
+						r.Noise(g*1000003 + i)
+					}()
+					continue
+				}
+				for _, v := range r.Replayer(raw) {
+					if v.Key == key {
+						atomic.StoreInt32(&found, 1)
+					}
+				}
+			}
+		}(g)
+	}
+	wg.Wait()
+	return found != 0
+}
